@@ -74,7 +74,7 @@ META = dict(
               'function), projection and marginalisation (none, yy).  admix_props: identity on all direct shapes; '
               'symbolic simplex rows 2-D (two rows) L(3,4) n(2,2), L(4,3) n(1,3), 3-D/4-D (one row) L3 n(1,2,1) / '
               'n(1,1,1,1).  Inbreeding F=0: 1-3-D.  Stretch (F>0): BetaBinomConvolution ploidy 2..6,8 (nInd 1; '
-              'ploidy 2 also nInd 2), from_phi_inbreeding 1-D n<=4 ploidy 2/4 (+het), 2-D n(2,2); F->0 bound 1-D.',
+              'ploidy 2 and 3 also nInd 2; ploidy 3 then 2 and 2 then 3 with nInd 2 in one process), from_phi_inbreeding 1-D n<=4 ploidy 2/4 (+het), 2-D n(2,2); F->0 bound 1-D.',
         thorough='quick plus: 1-D symbolic (5,3),(5,4),(6,2),(4,4); rational grids every n = 1..40 with L=6; semi-analytic '
                  '2-D L6 n(4,3), L4 n(3,4), symbolic 2-D grid L4 n(2,3), L3 n(3,2); 3-D L(5,5,4) n(3,2,3), L(4,4,5) '
                  'n(2,3,2); 4-D L(4,4,4,3) n(2,2,1,2), L(3,3,4,4) n(1,2,2,1); 5-D L3 n(2,1,2,1,1), n(1,2,1,1,2) and 5-D '
@@ -1244,7 +1244,7 @@ def units(tier, seed):
         add('inbreeding-F0-%s%s' % (_tag(f, l, s), '-het-' + het if het else ''), body_inbreeding_zero(f, l, s, het),
             P(f, l, s, F=0, het=het), _nent(s) + 3)
     # ------------------------------------------------------------------ stretch: inbreeding F > 0
-    bbc = [(2, 1), (2, 2), (3, 1), (4, 1), (5, 1), (6, 1), (8, 1)] + ([(2, 3), (3, 2), (4, 2), (7, 1)] if th else [])
+    bbc = [(2, 1), (2, 2), (3, 1), (3, 2), (4, 1), (5, 1), (6, 1), (8, 1)] + ([(2, 3), (4, 2), (7, 1)] if th else [])
     for p_, k_ in bbc:
         add('stretch-betabinom-convolution-ploidy%d-nind%d' % (p_, k_), body_bbc(p_, k_), dict(ploidy=p_, nInd=k_),
             2 * (p_ * k_ + 1) + 2, stretch=True, setup=_setup_inbreeding, qt=240000, timeout=900)
